@@ -22,6 +22,7 @@ import GrcVerif.LineMap
 import GrcVerif.StaticRules
 import GrcVerif.Octabox
 import GrcVerif.Args
+import GrcVerif.Check01
 import GrcVerif.Generated.ArgConsts
 namespace Grc.Driver
 
@@ -322,6 +323,43 @@ def cmdC05 (st : State) : Except String (List String) := do
     for (a, v) in gat.attrs do
       if v == 0 then out := out ++ [s!"FAIL glyph {g}: zero value stored for attribute {a}"]
   if out.isEmpty then return [s!"ok cells={cells} nonDefault={nonDefault} numAttrs={gloc.numAttrs} glatVersion={glat.version}", "done"]
+  return out ++ ["done"]
+
+/-- C01: action and constraint code of every rule of the real font against the expressions of the IR
+    (decompiled trees = denoted trees after constant folding; see Check01.lean). -/
+def cmdC01 (st : State) : Except String (List String) := do
+  let silf ← getSilf st
+  let mut out : List String := []
+  -- glyph-attribute ids from the marker glyph (as in C05), when the program has glyph attributes
+  let mut ids : Array Nat := #[]
+  match st.ir.gattr with
+  | some ga =>
+    let (_gloc, glat) ← getGlat st
+    let mg := glat.glyphs.getD ga.marker default
+    for j in [0:ga.numAttrs] do
+      let want := ga.markerBase + j
+      match mg.attrs.toList.filter (fun (_, v) => v == want) with
+      | [(a, _)] => ids := ids.push a
+      | cands => out := out ++ [s!"FAIL marker glyph {ga.marker}: attribute {j} (marker value {want}) found {cands.length} times"]; ids := ids.push 100000
+  | none => pure ()
+  let gmap : Nat → Nat := fun a => ids.getD a 100000
+  let mut nRules := 0
+  let mut nSets := 0
+  let mut nCons := 0
+  for pj in st.ir.passes do
+    match silf.passes[pj.index]? with
+    | none => out := out ++ [s!"FAIL pass {pj.index}: no such pass in font"]
+    | some pass =>
+      let mut ri := 0
+      for r in pj.rules do
+        nRules := nRules + 1
+        let (msgs, a, c) := Chk01.checkRule st.ir gmap r (pass.actions.getD ri ByteArray.empty) (pass.ruleConstraints.getD ri ByteArray.empty)
+        nSets := nSets + a
+        nCons := nCons + c
+        for m in msgs do
+          out := out ++ [s!"FAIL pass {pj.index} rule {ri} (line {r.line}): {m}"]
+        ri := ri + 1
+  if out.isEmpty then return [s!"ok rules={nRules} attrValues={nSets} itemConstraints={nCons}", "done"]
   return out ++ ["done"]
 
 def _root_.Grc.RuleIR.effective (r : RuleIR) : Bool :=
@@ -814,6 +852,10 @@ def step (st : State) (toks : List String) : IO (State × List String) := do
     return (st', ls)
   | ["linemap", path, token] => return (st, ← cmdLineMap path token)
   | ["c10"] => return (st, cmdC10 st)
+  | ["c01"] =>
+    match cmdC01 st with
+    | .ok ls => return (st, ls)
+    | .error e => return (st, [s!"error {e}", "done"])
   | ["c20"] =>
     match cmdC20 st with
     | .ok ls => return (st, ls)
